@@ -8,7 +8,7 @@ PROP = "C17"
 PROPS_V = "theories/Props/C17.v"
 THEOREMS = [
     "C17_parse_print_expr", "C17_parse_print_expr_refuted", "C17_precedence", "C17_keywords_ci",
-    "C17_parse_print_query", "C17_parse_print_command", "C17_fuel_enough", "C17_parse_total", "C17_numeric_limits",
+    "C17_plot_parse_print_expr", "C17_plot_precedence", "C17_parse_print_query", "C17_parse_print_command", "C17_fuel_enough", "C17_parse_total", "C17_numeric_limits",
     "C17_store_string_braces", "C17_no_exponential_witness",
     "C17_dispatch_refuted", "C17_dispatch_outside_known",
 ]
@@ -378,7 +378,8 @@ def t_json(rng, depth=2):
     r = rng.below(10)
     if depth <= 0 or r < 5:
         return rng.choice(["1", "-5", "0", "true", "false", "null", "1.5", "2.5e3", "1e+16", "-2E+3", "1e-7", '"a\\"}"', '"{{"', '"\\\\"', '"x"', '"a b"', '"é"', '"q\\"r"', '"{"', '"}"',
-                           str(rng.range(-10 ** 12, 10 ** 12)), '"' + g_string(rng, True, True).decode() + '"'])
+                           str(rng.range(-10 ** 12, 10 ** 12)), '"' + g_string(rng, True, True).decode() + '"',
+                           '"' + rng.choice(UNI) + rng.choice(UNI) + '"', '"x' + rng.choice(UNI) + ' AS y"'])
     if r < 8:
         return "{" + ",".join('"%s":%s' % (g_ident(rng).decode(), t_json(rng, depth - 1)) for _ in range(rng.range(0, 3))) + "}"
     return "[" + ",".join(t_json(rng, depth - 1) for _ in range(rng.range(0, 3))) + "]"
@@ -387,7 +388,8 @@ def t_json(rng, depth=2):
 def t_other(rng):
     r = rng.below(14)
     idn = lambda: g_ident(rng, rng.chance(1, 6)).decode()
-    name = lambda: rng.choice([idn(), '"' + g_string(rng, True).decode() + '"', idn() + ":" + idn(), "user-1"])
+    name = lambda: rng.choice([idn(), '"' + g_string(rng, True).decode() + '"', '"' + g_string(rng).decode("utf-8") + '"',
+                               '"' + rng.choice(UNI) + g_ident(rng).decode() + rng.choice(UNI) + '"', idn() + ":" + idn(), "user-1"])
     if r < 2:
         s = kwc(rng, "REPLAY") + sp(rng) + (idn() + sp(rng) if rng.chance(1, 2) else "") + kwc(rng, "FOR") + sp(rng) + name()
         for _ in range(rng.range(0, 3)):
@@ -688,21 +690,28 @@ def t_define(rng):
 
 def t_batch(rng, depth=1):
     parts = []
-    for _ in range(rng.range(0, 4)):
-        r = rng.below(8)
+    junk = rng.chance(1, 4)
+    for _ in range(rng.range(0, 4) if junk else rng.range(1, 3)):
+        r = rng.below(10)
         if r == 0:
-            parts.append(rng.choice(["PING", "FLUSH", "", " ", "ping"]))
-        elif r < 4:
-            parts.append(t_query(rng).strip().rstrip(";"))
-        elif r == 4:
+            parts.append(rng.choice(["PING", "FLUSH", "ping", "LIST USERS"] + (["", " "] if junk else [])))
+        elif r < 3:
+            parts.append(t_query(rng).strip().rstrip(";") if junk else "QUERY " + g_ident(rng).decode() + rng.choice(
+                ["", " LIMIT 5", " WHERE a = 1 AND b = \"x y\"", " FOR \"c" + rng.choice(UNI) + "\"", " WHERE a IN (1, 2) OR NOT b = 3", " RETURN [a, \"b;c\"]",
+                 " WHERE x = 1.50", " WHERE x = 12345678901234567", " COUNT BY f", " WHERE s = \"a\\\\b\""]))
+        elif r == 3:
             parts.append(g_define(rng)[0])
-        elif r == 5:
+        elif r == 4:
             parts.append(pr_plot(rng, g_plot(rng)))
+        elif r == 5:
+            parts.append("STORE e FOR c PAYLOAD {" + ",".join('"%s":%s' % (g_ident(rng).decode(), rng.choice(["1", '"x"', '"a;b"', "007", "1.5", "true", '{"n":2}', "-3", '"' + rng.choice(UNI) + '"'])) for _ in range(rng.range(0, 3))) + "}")
         elif r == 6:
-            parts.append("STORE e FOR c PAYLOAD {" + ",".join('"%s":%s' % (g_ident(rng).decode(), rng.choice(["1", '"x"', '"a;b"', "007", "1.5", "true", '{"n":2}', "-3"])) for _ in range(rng.range(0, 3))) + "}")
+            parts.append(rng.choice(["REPLAY FOR c1", "REPLAY ev FOR \"c 1\" SINCE \"2024-01-01\"", "SHOW m1", "CREATE USER u1 WITH KEY \"k\"", "GRANT READ, WRITE ON e1, e2 TO u",
+                                     "REVOKE KEY u", "SHOW PERMISSIONS FOR u", "REMEMBER QUERY e LIMIT 3 AS m", "REVOKE WRITE ON e FROM \"u" + rng.choice(UNI) + "\""]))
         else:
-            parts.append(t_other(rng) if depth > 0 else "PING")
-    return kwc(rng, "BATCH") + sp(rng, False) + "[" + sp(rng, False) + (sp(rng, False) + ";" + sp(rng, False)).join(parts) + rng.choice(["]", " ]", "", "] trailing"])
+            parts.append(t_other(rng) if (depth > 0 and junk) else "PING")
+    close = rng.choice(["]", " ]", "", "] trailing"]) if junk else rng.choice(["]", " ]", " ] "])
+    return kwc(rng, "BATCH") + sp(rng, False) + "[" + sp(rng, False) + (sp(rng, False) + ";" + sp(rng, False)).join(parts) + close
 
 
 def g_remember(rng):
@@ -1067,6 +1076,10 @@ def same(c, impl, model):
         return same(c2, impl, model[7:])
     if model in ("DOMAIN", "UNMODELLED") or model.startswith("UNMODELLED"):
         return True          # outside the model's domain: totality oracle only
+    if c["line"].startswith("parse_disp") and model.startswith(("BRESP ", "BPANIC ")):
+        if "INVALIDJSON" in _norm_stores(model):
+            return impl == "NOPARSE"
+        return impl == ("RESP" if model.startswith("BRESP ") else "PANIC")
     if c["line"].startswith("parse_disp") and model.startswith("S "):
         try:
             _strict_json(unhx(model[2:]))
@@ -1142,6 +1155,8 @@ def classify(c, impl):
     up = b.strip().upper()
     if line.startswith("parse_kind"):
         return "BatchDispatchUnreachable" if impl == "PANIC" and line.endswith(" Batch") and m == "PANIC" else None
+    if m.startswith("BPANIC "):
+        m = "PANIC"
     if line.startswith("parse_disp"):
         if impl == "PANIC" and up.startswith(b"BATCH"):
             return "BatchDispatchUnreachable"
@@ -1150,7 +1165,7 @@ def classify(c, impl):
         # (the numeric-conversion panics were repaired by 57cd0c4: a PANIC of parse_cmd has no known class any more)
         # (exponential re-parsing was repaired by 04c7300: a TIMEOUT has no known class any more)
         if impl == "ABORT":
-            if up.startswith((b"QUERY", b"FIND", b"REMEMBER")) and \
+            if up.startswith((b"QUERY", b"FIND", b"REMEMBER", b"PLOT", b"BATCH")) and \
                     len(re.findall(rb"(?i)\b(not|and|or)\b", b)) + _max_paren_depth(b) >= 3000:
                 return "DeepNestingStackOverflow"
             if up.startswith(b"STORE") and b.count(b"{") >= 5000:
